@@ -206,6 +206,8 @@ def render(v, t, mode='optimized'):
         if isinstance(v, tuple) and v and v[0] == 'rec':
             return {'prim': 'Lambda_rec', 'args': [v[1]]}
         return v
+    if p == 'ticket':      # written as the comb (ticketer, contents, amount)
+        return render((v[0], (v[1], v[2])), ('pair', ('address',), ('pair', t[1], ('nat',))), mode)
     raise ParseError('cannot render type ' + p)
 
 
@@ -336,6 +338,10 @@ def parse(e, t, strict_order=True):
         if len(args) == 2:
             return (parse(args[0], t[1], strict_order), parse(args[1], t[2], strict_order))
         if t[2][0] != 'pair':
+            # sequence form only: the remaining elements are read as ONE value of the right-hand type when that type is itself
+            # written as a sequence ({1 ; 2 ; 3 ; 4} at pair nat (pair nat (list nat)) is Pair 1 (Pair 2 {3 ; 4}))
+            if isinstance(e, list) and t[2][0] in ('list', 'set', 'map', 'big_map', 'lambda'):
+                return (parse(args[0], t[1], strict_order), parse(list(args[1:]), t[2], strict_order))
             raise ParseError('too many comb elements')
         return (parse(args[0], t[1], strict_order), parse(args[1:], t[2], strict_order))
     if p == 'option':
@@ -380,6 +386,11 @@ def parse(e, t, strict_order=True):
             return e
         _, a = _prim(e, ['Lambda_rec'])
         return ('rec', a[0])
+    if p == 'ticket':
+        tk, (c, n) = parse(e, ('pair', ('address',), ('pair', t[1], ('nat',))), strict_order)
+        if n <= 0:
+            raise ParseError('ticket amount must be positive')
+        return (tk, c, n)
     raise ParseError('cannot parse type ' + p)
 
 
